@@ -2,7 +2,7 @@ package engine
 
 import "fmt"
 
-var famNames = []string{"F-type", "F-name", "F-sub", "F-full", "F-iface", "F-chain", "F-tsub", "F-nsub", "F-assign"}
+var famNames = []string{"F-type", "F-name", "F-sub", "F-full", "F-iface", "F-chain", "F-tsub", "F-nsub", "F-assign", "F-ptr"}
 var formNames = map[int64]string{0: "positional where the labels allow it, else struct", 1: "struct", 2: "*struct", 3: "built (BuildFunc)", 9: "symbolic form per function"}
 
 // world describes one resolver template shard.
@@ -26,7 +26,7 @@ func world(entry string, fam, nT, nV, conv, form, sv int64, mode ...int64) Shard
 	}
 	if fam >= 100 {
 		skel := []string{"skeleton 0: multi-input converter entered through one input, typed inputs with symbolic subtypes", "skeleton 1: diamond of two multi-input converters", "skeleton 2: two-output converter feeding two parameters, symbolic names/subtypes",
-			"skeleton 3: provider competing with direct values, symbolic names/subtypes", "skeleton 4: chain of three with a bidirectional pair", "skeleton 5: two named parameters converted from competing named inputs with subtypes", "skeleton 6: deep diamond (5 converters, named+subtyped intermediate, interface target)", "skeleton 7: two supplied converters of identical Go type and a hopeless named parameter"}
+			"skeleton 3: provider competing with direct values, symbolic names/subtypes", "skeleton 4: chain of three with a bidirectional pair", "skeleton 5: two named parameters converted from competing named inputs with subtypes", "skeleton 6: deep diamond (5 converters, named+subtyped intermediate, interface target)", "skeleton 7: two supplied converters of identical Go type and a hopeless named parameter", "skeleton 8: same-name conversion adding a subtype fed by another converter (negative-weight loop under the name discount)", "skeleton 9: named values of one name and type with symbolic subtypes around a multi-input converter and a provider"}
 		return sh(entry, fmt.Sprintf("%s, forms=%s, order policy %d%s", skel[fam-100], formNames[form], sv, extra), 0, fam, nT, nV, conv, form, sv, m)
 	}
 	return sh(entry, fmt.Sprintf("%s: %d target params, %d supplied values, converters(in,out digits; 9=provider)=%d, forms=%s, order policy %d%s", famNames[fam], nT, nV, conv, formNames[form], sv, extra), 0, fam, nT, nV, conv, form, sv, m)
@@ -44,7 +44,7 @@ func registerResolver() {
 	register(&PropSpec{
 		ID: "C01", Pkg: "argmapper",
 		Quick: []Shard{
-			world("HarnessC01", 1, 1, 2, 0, 0, 0), world("HarnessC01", 2, 1, 2, 0, 1, 0), world("HarnessC01", 3, 1, 1, 0, 9, 0), world("HarnessC01", 0, 1, 1, 11, 9, 0), world("HarnessC01", 1, 1, 1, 11, 1, 0), world("HarnessC01", 2, 1, 1, 11, 3, 1), world("HarnessC01", 6, 1, 1, 12, 1, 0, 4), world("HarnessC01", 5, 1, 1, 2111, 0, 0), world("HarnessC01", 100, 0, 0, 0, 1, 0), world("HarnessC01", 101, 0, 0, 0, 9, 0, 2), world("HarnessC01", 102, 0, 0, 0, 1, 0), world("HarnessC01", 103, 0, 0, 0, 1, 0), world("HarnessC01", 104, 0, 0, 0, 0, 0), world("HarnessC01", 106, 0, 0, 0, 1, 0), world("HarnessC01", 1, 1, 1, 11, 3, 0, 8), world("HarnessC01", 3, 1, 1, 0, 9, 0, 24), world("HarnessC01", 0, 1, 1, 11, 9, 0, 16),
+			world("HarnessC01", 1, 1, 2, 0, 0, 0), world("HarnessC01", 2, 1, 2, 0, 1, 0), world("HarnessC01", 3, 1, 1, 0, 9, 0), world("HarnessC01", 0, 1, 1, 11, 9, 0), world("HarnessC01", 1, 1, 1, 11, 1, 0), world("HarnessC01", 2, 1, 1, 11, 3, 1), world("HarnessC01", 6, 1, 1, 12, 1, 0, 4), world("HarnessC01", 5, 1, 1, 2111, 0, 0), world("HarnessC01", 100, 0, 0, 0, 1, 0), world("HarnessC01", 101, 0, 0, 0, 9, 0, 2), world("HarnessC01", 102, 0, 0, 0, 1, 0), world("HarnessC01", 103, 0, 0, 0, 1, 0), world("HarnessC01", 104, 0, 0, 0, 0, 0), world("HarnessC01", 106, 0, 0, 0, 1, 0), world("HarnessC01", 1, 1, 1, 11, 3, 0, 8), world("HarnessC01", 3, 1, 1, 0, 9, 0, 24), world("HarnessC01", 0, 1, 1, 11, 9, 0, 16), world("HarnessC01", 9, 1, 1, 11, 1, 0), world("HarnessC01", 108, 0, 0, 0, 1, 0), world("HarnessC01", 109, 0, 0, 0, 1, 0),
 		},
 		Thorough: []Shard{
 			world("HarnessC01", 1, 1, 2, 0, 0, 0), world("HarnessC01", 2, 1, 2, 0, 1, 0), world("HarnessC01", 3, 1, 1, 0, 9, 0), world("HarnessC01", 0, 1, 1, 11, 9, 0), world("HarnessC01", 1, 1, 1, 11, 1, 0), world("HarnessC01", 2, 1, 1, 11, 3, 1), world("HarnessC01", 6, 1, 1, 12, 1, 0, 4), world("HarnessC01", 5, 1, 1, 2111, 0, 0), world("HarnessC01", 100, 0, 0, 0, 1, 0), world("HarnessC01", 101, 0, 0, 0, 9, 0, 2), world("HarnessC01", 102, 0, 0, 0, 1, 0), world("HarnessC01", 103, 0, 0, 0, 1, 0), world("HarnessC01", 104, 0, 0, 0, 0, 0), world("HarnessC01", 106, 0, 0, 0, 1, 0), world("HarnessC01", 3, 1, 2, 0, 9, 0), world("HarnessC01", 3, 1, 1, 11, 3, 0), world("HarnessC01", 0, 1, 1, 1111, 1, 0), world("HarnessC01", 1, 2, 1, 11, 1, 0), world("HarnessC01", 0, 1, 2, 21, 1, 0), world("HarnessC01", 7, 1, 1, 11, 1, 0), world("HarnessC01", 6, 1, 2, 21, 1, 0, 4), world("HarnessC01", 5, 1, 2, 211111, 0, 0), world("HarnessC01", 5, 2, 1, 1111, 9, 0), world("HarnessC01", 100, 0, 0, 0, 9, 1), world("HarnessC01", 102, 0, 0, 0, 9, 0), world("HarnessC01", 103, 0, 0, 0, 9, 1), world("HarnessC01", 105, 0, 0, 0, 9, 0), world("HarnessC01", 1, 1, 1, 91, 1, 0), world("HarnessC01", 3, 1, 1, 91, 1, 0),
@@ -60,7 +60,8 @@ func registerResolver() {
 	register(&PropSpec{
 		ID: "C02", Pkg: "argmapper",
 		Quick: []Shard{
-			world("HarnessC02", 1, 1, 2, 0, 0, 0), world("HarnessC02", 2, 1, 2, 0, 1, 0), world("HarnessC02", 3, 1, 1, 0, 9, 0), world("HarnessC02", 0, 1, 1, 11, 9, 0), world("HarnessC02", 1, 1, 1, 11, 1, 0), world("HarnessC02", 2, 1, 1, 11, 3, 1), world("HarnessC02", 5, 1, 1, 2121, 0, 0), world("HarnessC02", 100, 0, 0, 0, 1, 0), world("HarnessC02", 102, 0, 0, 0, 1, 0), world("HarnessC02", 103, 0, 0, 0, 1, 0), world("HarnessC02", 8, 1, 1, 0, 9, 0), world("HarnessC02", 8, 1, 1, 11, 1, 0), world("HarnessC02", 0, 1, 1, 21, 3, 0),
+			world("HarnessC02", 1, 1, 2, 0, 0, 0), world("HarnessC02", 2, 1, 2, 0, 1, 0), world("HarnessC02", 3, 1, 1, 0, 9, 0), world("HarnessC02", 0, 1, 1, 11, 9, 0), world("HarnessC02", 1, 1, 1, 11, 1, 0), world("HarnessC02", 2, 1, 1, 11, 3, 1), world("HarnessC02", 5, 1, 1, 2121, 0, 0), world("HarnessC02", 100, 0, 0, 0, 1, 0), world("HarnessC02", 102, 0, 0, 0, 1, 0), world("HarnessC02", 103, 0, 0, 0, 1, 0), world("HarnessC02", 8, 1, 1, 0, 9, 0), world("HarnessC02", 8, 1, 1, 11, 1, 0), world("HarnessC02", 0, 1, 1, 21, 3, 0), world("HarnessC02", 109, 0, 0, 0, 1, 0),
+			sh("HarnessC02Static", "target struct with an embedded exported (non-marker) field that cannot be derived", 0, 0), sh("HarnessC02Static", "converter whose struct input has an underivable embedded exported field", 0, 1),
 		},
 		Thorough: []Shard{
 			world("HarnessC02", 1, 1, 2, 0, 0, 0), world("HarnessC02", 2, 1, 2, 0, 1, 0), world("HarnessC02", 3, 1, 1, 0, 9, 0), world("HarnessC02", 0, 1, 1, 11, 9, 0), world("HarnessC02", 1, 1, 1, 11, 1, 0), world("HarnessC02", 2, 1, 1, 11, 3, 1), world("HarnessC02", 5, 1, 1, 2121, 0, 0), world("HarnessC02", 100, 0, 0, 0, 1, 0), world("HarnessC02", 102, 0, 0, 0, 1, 0), world("HarnessC02", 103, 0, 0, 0, 1, 0), world("HarnessC02", 3, 1, 2, 0, 9, 0), world("HarnessC02", 3, 1, 1, 11, 3, 0), world("HarnessC02", 0, 1, 1, 1111, 1, 0), world("HarnessC02", 0, 1, 1, 2121, 1, 0), world("HarnessC02", 0, 1, 2, 21, 1, 0), world("HarnessC02", 5, 1, 1, 212111, 0, 0), world("HarnessC02", 6, 1, 1, 2111, 1, 0), world("HarnessC02", 1, 1, 1, 91, 1, 0),
@@ -76,7 +77,7 @@ func registerResolver() {
 	register(&PropSpec{
 		ID: "C06", Pkg: "argmapper",
 		Quick: []Shard{
-			world("HarnessC06", 1, 1, 2, 0, 0, 0), world("HarnessC06", 2, 2, 1, 0, 1, 0), world("HarnessC06", 3, 1, 1, 0, 9, 0), world("HarnessC06", 0, 1, 1, 11, 9, 0), world("HarnessC06", 1, 1, 1, 11, 1, 0), world("HarnessC06", 2, 1, 1, 11, 3, 1), world("HarnessC06", 5, 1, 1, 2121, 1, 0), world("HarnessC06", 5, 1, 1, 2111, 0, 0, 2), world("HarnessC06", 6, 1, 1, 12, 1, 0, 4), world("HarnessC06", 100, 0, 0, 0, 1, 0), world("HarnessC06", 101, 0, 0, 0, 9, 0, 2), world("HarnessC06", 102, 0, 0, 0, 1, 0), world("HarnessC06", 103, 0, 0, 0, 1, 0), world("HarnessC06", 104, 0, 0, 0, 0, 0), world("HarnessC06", 106, 0, 0, 0, 1, 0), world("HarnessC06", 1, 1, 1, 91, 1, 0),
+			world("HarnessC06", 1, 1, 2, 0, 0, 0), world("HarnessC06", 2, 2, 1, 0, 1, 0), world("HarnessC06", 3, 1, 1, 0, 9, 0), world("HarnessC06", 0, 1, 1, 11, 9, 0), world("HarnessC06", 1, 1, 1, 11, 1, 0), world("HarnessC06", 2, 1, 1, 11, 3, 1), world("HarnessC06", 5, 1, 1, 2121, 1, 0), world("HarnessC06", 5, 1, 1, 2111, 0, 0, 2), world("HarnessC06", 6, 1, 1, 12, 1, 0, 4), world("HarnessC06", 100, 0, 0, 0, 1, 0), world("HarnessC06", 101, 0, 0, 0, 9, 0, 2), world("HarnessC06", 102, 0, 0, 0, 1, 0), world("HarnessC06", 103, 0, 0, 0, 1, 0), world("HarnessC06", 104, 0, 0, 0, 0, 0), world("HarnessC06", 106, 0, 0, 0, 1, 0), world("HarnessC06", 1, 1, 1, 91, 1, 0), world("HarnessC06", 108, 0, 0, 0, 1, 0), world("HarnessC06", 4, 1, 1, 11, 1, 0),
 			sh("HarnessC06Pos", "positional target func(T,T)", 0, 0), sh("HarnessC06Pos", "positional target func(T,T,U)", 0, 1),
 			sh("HarnessC06Pos", "positional converter func(T,T) U", 0, 2), sh("HarnessC06Pos", "positional func(T,T) (T,T)", 0, 3),
 			sh("HarnessC06Malformed", "nil option", 0, 0), sh("HarnessC06Malformed", "nil values", 0, 1), sh("HarnessC06Malformed", "Converter(42)", 0, 2),
@@ -126,7 +127,7 @@ func registerResolver() {
 	register(&PropSpec{
 		ID: "C05", Pkg: "argmapper", SchedDependent: true,
 		Quick: []Shard{
-			world("HarnessC05", 0, 1, 1, 11, 1, 102), world("HarnessC05", 0, 1, 1, 1111, 1, 0), world("HarnessC05", 1, 1, 1, 1111, 1, 1), world("HarnessC05", 0, 1, 1, 1121, 1, 0), world("HarnessC05", 101, 0, 0, 0, 9, 0, 2), world("HarnessC05", 104, 0, 0, 0, 0, 100, 2), world("HarnessC05", 106, 0, 0, 0, 1, 0, 2), world("HarnessC05", 5, 1, 1, 2111, 0, 0, 2), world("HarnessC05", 0, 1, 1, 91, 9, 0, 2), world("HarnessC05", 0, 1, 1, 11, 9, 0, 16),
+			world("HarnessC05", 0, 1, 1, 11, 1, 102), world("HarnessC05", 0, 1, 1, 1111, 1, 0), world("HarnessC05", 1, 1, 1, 1111, 1, 1), world("HarnessC05", 0, 1, 1, 1121, 1, 0), world("HarnessC05", 101, 0, 0, 0, 9, 0, 2), world("HarnessC05", 104, 0, 0, 0, 0, 100, 2), world("HarnessC05", 106, 0, 0, 0, 1, 0, 2), world("HarnessC05", 5, 1, 1, 2111, 0, 0, 2), world("HarnessC05", 0, 1, 1, 91, 9, 0, 2), world("HarnessC05", 0, 1, 1, 11, 9, 0, 16), world("HarnessC05", 108, 0, 0, 0, 1, 0), world("HarnessC05", 9, 1, 1, 11, 1, 0),
 		},
 		Thorough: []Shard{
 			world("HarnessC05", 0, 1, 1, 11, 1, 102), world("HarnessC05", 0, 1, 1, 1111, 1, 0), world("HarnessC05", 1, 1, 1, 1111, 1, 1), world("HarnessC05", 0, 1, 1, 1121, 1, 0), world("HarnessC05", 101, 0, 0, 0, 9, 0, 2), world("HarnessC05", 104, 0, 0, 0, 0, 100, 2), world("HarnessC05", 106, 0, 0, 0, 1, 0, 2), world("HarnessC05", 5, 1, 1, 2111, 0, 0, 2), world("HarnessC05", 0, 1, 1, 91, 9, 0, 2), world("HarnessC05", 0, 1, 1, 1111, 1, 100), world("HarnessC05", 0, 1, 1, 111111, 1, 0), world("HarnessC05", 3, 1, 1, 1111, 0, 0), world("HarnessC05", 0, 2, 1, 1111, 1, 2), world("HarnessC05", 4, 1, 1, 1111, 1, 0), world("HarnessC05", 5, 1, 2, 211111, 0, 0), world("HarnessC05", 5, 1, 1, 111111, 0, 0, 2), world("HarnessC05", 100, 0, 0, 0, 9, 0, 2), world("HarnessC05", 102, 0, 0, 0, 9, 0, 2), world("HarnessC05", 105, 0, 0, 0, 9, 100),
@@ -154,7 +155,7 @@ func registerResolver() {
 	register(&PropSpec{
 		ID: "C13", Pkg: "argmapper",
 		Quick: []Shard{
-			world("HarnessC13", 1, 1, 2, 0, 0, 0), world("HarnessC13", 3, 2, 1, 0, 1, 0), world("HarnessC13", 0, 1, 1, 11, 9, 0), world("HarnessC13", 2, 1, 1, 11, 3, 1), world("HarnessC13", 1, 2, 1, 11, 1, 0), world("HarnessC13", 5, 2, 1, 2111, 0, 0), world("HarnessC13", 107, 0, 0, 0, 9, 0), world("HarnessC13", 103, 0, 0, 0, 1, 0), world("HarnessC13", 6, 2, 1, 0, 1, 0, 4), world("HarnessC13", 6, 2, 0, 11, 1, 0, 4), world("HarnessC13", 1, 2, 1, 0, 3, 0, 8), world("HarnessC13", 0, 2, 1, 11, 9, 0, 16),
+			world("HarnessC13", 1, 1, 2, 0, 0, 0), world("HarnessC13", 3, 2, 1, 0, 1, 0), world("HarnessC13", 0, 1, 1, 11, 9, 0), world("HarnessC13", 2, 1, 1, 11, 3, 1), world("HarnessC13", 1, 2, 1, 11, 1, 0), world("HarnessC13", 5, 2, 1, 2111, 0, 0), world("HarnessC13", 107, 0, 0, 0, 9, 0), world("HarnessC13", 103, 0, 0, 0, 1, 0), world("HarnessC13", 6, 2, 1, 0, 1, 0, 4), world("HarnessC13", 6, 2, 0, 11, 1, 0, 4), world("HarnessC13", 1, 2, 1, 0, 3, 0, 8), world("HarnessC13", 0, 2, 1, 11, 9, 0, 16), world("HarnessC13", 0, 2, 1, 10, 9, 0), world("HarnessC13", 1, 2, 1, 1110, 1, 0),
 		},
 		Thorough: []Shard{
 			world("HarnessC13", 1, 1, 2, 0, 0, 0), world("HarnessC13", 3, 2, 1, 0, 1, 0), world("HarnessC13", 0, 1, 1, 11, 9, 0), world("HarnessC13", 2, 1, 1, 11, 3, 1), world("HarnessC13", 1, 2, 1, 11, 1, 0), world("HarnessC13", 5, 2, 1, 2111, 0, 0), world("HarnessC13", 3, 2, 2, 11, 1, 0), world("HarnessC13", 0, 2, 1, 1111, 1, 0), world("HarnessC13", 6, 2, 1, 12, 1, 0, 4), world("HarnessC13", 7, 2, 1, 11, 1, 0), world("HarnessC13", 1, 2, 1, 91, 1, 0),
@@ -196,9 +197,9 @@ func registerResolver() {
 	register(&PropSpec{
 		ID: "C14", Pkg: "argmapper",
 		Quick: []Shard{c14(1, 5, 2, 0), c14(2, 0, 1, 1), c14(0, 1, 2, 1), c14(5, 2, 2, 0), c14(0, 0, 2, 2), c14(3, 5, 1, 0), c14(4, 5, 1, 0), c14(5, 3, 1, 1), c14(5, 4, 1, 0), c14(0, 0, 1, 3), c14(5, 5, 0, 3),
-			c14s(0), c14s(1), c14s(2), c14s(3), c14s(4)},
+			c14s(0), c14s(1), c14s(2), c14s(3), c14s(4), c14s(5)},
 		Thorough: []Shard{c14(1, 5, 2, 0), c14(2, 0, 2, 1), c14(0, 1, 2, 1), c14(5, 2, 2, 0), c14(0, 0, 3, 2), c14(3, 5, 1, 0), c14(4, 5, 1, 0), c14(5, 3, 1, 1), c14(5, 4, 1, 0), c14(1, 2, 1, 1), c14(2, 1, 1, 0), c14(0, 0, 2, 3), c14(0, 5, 3, 1), c14(5, 0, 3, 3),
-			c14s(0), c14s(1), c14s(2), c14s(3), c14s(4)},
+			c14s(0), c14s(1), c14s(2), c14s(3), c14s(4), c14s(5)},
 		Covers:   []string{"C14.sets-checked", "C14.rejection-checked", "C14.pointer-struct-form", "C14.static-checked"},
 		Bounds:   []string{"field lists of <=2 fields (3 positional entries); per field the tag is drawn symbolically from the grammar [name in {none,x,Yy,ZED}][,typeOnly][,subtype=s][,unknown option] or empty tag, type in {P0,P1,I}; forms positional/struct/*struct/**struct/mixed/empty for inputs and results; error absent/final/first", "a static catalogue of real Go signatures (unexported fields, marker not in first position, plain structs, non-function values)"},
 		Outside:  []string{"more than 3 fields", "lists that repeat a name, a type-only type or a (type,subtype) pair (well-formedness)", "tags outside the grammar"},
@@ -224,9 +225,9 @@ func registerResolver() {
 	})
 	register(&PropSpec{
 		ID: "C16", Pkg: "argmapper",
-		Quick:    []Shard{sh("HarnessC16", "3 symbolic options (Named/NamedSubtype/TypedSubtype with symbolic spellings and subtypes, nil value) split symbolically into defaults, first call, second call", 0, 3, 0, 0), sh("HarnessC16", "2 symbolic options after three fixed base defaults (override, then rely on the default again)", 0, 2, 0, 1), sh("HarnessC16", "2 symbolic options incl. nil option, after base defaults", 0, 2, 1, 1), sh("HarnessC16Perm", "permutations of 3 exact options", 0, 3, 0), sh("HarnessC16Perm", "permutations of 3 exact options + distractor converter", 0, 3, 1)},
+		Quick:    []Shard{sh("HarnessC16", "3 symbolic options (Named/NamedSubtype/TypedSubtype with symbolic spellings and subtypes, nil value) split symbolically into defaults, first call, second call", 0, 3, 0, 0), sh("HarnessC16", "2 symbolic options after three fixed base defaults (override, then rely on the default again)", 0, 2, 0, 1), sh("HarnessC16", "2 symbolic options incl. nil option, after base defaults", 0, 2, 1, 1), sh("HarnessC16Perm", "permutations of 3 exact options", 0, 3, 0), sh("HarnessC16Perm", "permutations of 3 exact options + distractor converter", 0, 3, 1), sh("HarnessC16Alias", "two functions whose defaults share one backing slice with spare capacity", 0, 0)},
 		Thorough: []Shard{sh("HarnessC16", "4 symbolic options split symbolically into defaults, first call, second call", 0, 4, 0, 0), sh("HarnessC16", "3 symbolic options after three fixed base defaults", 0, 3, 0, 1), sh("HarnessC16", "3 symbolic options incl. nil option", 0, 3, 1, 0), sh("HarnessC16Perm", "permutations of 4 exact options", 0, 4, 0), sh("HarnessC16Perm", "permutations of 4 exact options + distractor converter", 0, 4, 1)},
-		Covers:   []string{"C16.call-returned", "C16.values-checked", "C16.default-applies", "C16.call-overrides-or-supplies", "C16.nil-option-checked", "C16.permutation-checked", "C16.second-call-checked"},
+		Covers:   []string{"C16.call-returned", "C16.values-checked", "C16.default-applies", "C16.call-overrides-or-supplies", "C16.nil-option-checked", "C16.permutation-checked", "C16.second-call-checked", "C16.alias-checked"},
 		Bounds:   []string{"option lists of <=3 (quick) / 4 (thorough) options, each symbolically Named / NamedSubtype (spellings symbolic) / Typed / TypedSubtype / nil value / nil option, split symbolically into construction defaults, the options of a first call and the options of a second call on the same Func; field-name spelling symbolic", "all permutations of 3/4 exactly matching options, with and without a distractor converter"},
 		Outside:  []string{"longer option lists", "non-ASCII names"},
 		Assume:   common,
@@ -267,7 +268,7 @@ func registerResolver() {
 	})
 	register(&PropSpec{
 		ID: "C09", Pkg: "argmapper", RaceReplay: true,
-		Quick:    []Shard{w8("HarnessC09", 0, 1, 1, 11, 1, 2, 1), w8("HarnessC09", 0, 1, 1, 11, 9, 1, 1), w8("HarnessC09", 0, 1, 1, 1111, 1, 1, 1), w8("HarnessC09", 0, 1, 1, 11, 1, 1, 0)},
+		Quick:    []Shard{w8("HarnessC09", 0, 1, 1, 11, 1, 2, 1), w8("HarnessC09", 0, 1, 1, 11, 9, 1, 1), w8("HarnessC09", 0, 1, 1, 1111, 1, 1, 1), w8("HarnessC09", 0, 1, 1, 11, 1, 1, 0), w8("HarnessC09", 0, 1, 0, 91, 1, 1, 1), w8("HarnessC09", 0, 1, 1, 9111, 1, 1, 0)},
 		Thorough: []Shard{w8("HarnessC09", 0, 1, 1, 11, 1, 3, 1), w8("HarnessC09", 0, 1, 1, 11, 9, 2, 1), w8("HarnessC09", 0, 1, 1, 1111, 1, 2, 1), w8("HarnessC09", 1, 1, 1, 11, 1, 2, 1), w8("HarnessC09", 4, 1, 1, 11, 1, 2, 0), w8("HarnessC09", 0, 1, 1, 1121, 1, 1, 1), w8("HarnessC09", 3, 1, 1, 11, 1, 1, 1)},
 		Covers:   []string{"C09.redefines-done", "C09.results-compared", "C09.run-once-checked"},
 		Bounds:   []string{"template worlds with 1-2 converters (one of them optionally run-once); 1-3 Redefine calls, each one of seven symbolically chosen variants (plain, type filter, admit-nothing filter, reject-all output filter, fewer supplied values, interface/OR filter, first converter offered through a ConverterGen), then Call; compared with a twin world that only Calls", "write tracking: every store to a cell reachable from the supplied Func objects and option slice during Redefine"},
